@@ -121,6 +121,22 @@ Definition model_registry : list reg := [
   Reg "extract_object" "MinArgsCheck" 2 (-1) 0 "ExtractObject";
   Reg "regex_match" "InitialTextFunction" 2 3 1 "RegexMatch";
   Reg "foreach" "MinArgsCheck" 2 (-1) 0 "ForEach";
+  Reg "text" "OneArgFunction" 1 1 (-1) "Text";
+  Reg "number" "OneArgFunction" 1 1 (-1) "Number";
+  Reg "boolean" "OneArgFunction" 1 1 (-1) "Boolean";
+  Reg "and" "MinArgsCheck" 1 (-1) 0 "And";
+  Reg "or" "MinArgsCheck" 1 (-1) 0 "Or";
+  Reg "if" "ThreeArgFunction" 3 3 (-1) "If";
+  Reg "abs" "OneNumberFunction" 1 1 (-1) "Abs";
+  Reg "count" "OneArgFunction" 1 1 (-1) "Count";
+  Reg "default" "TwoArgFunction" 2 2 (-1) "Default";
+  Reg "join" "TwoArgFunction" 2 2 (-1) "Join";
+  Reg "reverse" "OneArrayFunction" 1 1 (-1) "Reverse";
+  Reg "sum" "OneArrayFunction" 1 1 (-1) "Sum";
+  Reg "concat" "TwoArrayFunction" 2 2 (-1) "Concat";
+  Reg "is_error" "OneArgFunction" 1 1 (-1) "IsError";
+  Reg "text_length" "OneTextFunction" 1 1 (-1) "TextLength";
+  Reg "text_compare" "TwoTextFunction" 2 2 (-1) "TextCompare";
   Reg "has_group" "MinAndMaxArgsCheck" 2 3 0 "HasGroup"
 ]%string.
 
